@@ -207,7 +207,7 @@ class SchedPool:
         out = []
         for t in range(len(res)):
             kind, blob = res[t]
-            obj = pickle.loads(blob)
+            obj = _parent_loads(blob)
             if kind == 'err':
                 raise obj
             out.extend(obj)
@@ -231,6 +231,20 @@ class SchedPool:
         raise NotImplementedError('SchedPool models imap / imap_unordered / map only')
 
 
+class PoolHang(BaseException):
+    """The real pool would never hand this batch back: its result-handler thread unpickles every result in the
+    parent, and when that fails the thread dies, no further result is delivered and the caller blocks forever.
+    (BaseException so that no `except Exception` in the code under test can swallow the modelled hang.)"""
+
+
+def _parent_loads(blob):
+    try:
+        return pickle.loads(blob)
+    except BaseException as e:       # noqa
+        raise PoolHang(f'a worker\'s result cannot be unpickled in the parent ({type(e).__name__}: {e}): the real '
+                       f'pool\'s result thread dies and the call never returns') from None
+
+
 class _ResultIterator:
     """Like multiprocessing's IMapIterator: a plain iterator object (not a generator), so an exception shipped back
     from a worker is raised from __next__ exactly as the real pool does it."""
@@ -247,7 +261,7 @@ class _ResultIterator:
             if not self.chunks:
                 raise StopIteration
             kind, blob = self.chunks.pop(0)
-            obj = pickle.loads(blob)
+            obj = _parent_loads(blob)
             if kind == 'err':
                 raise obj
             self.pending = list(obj)          # the chunk's results (none if the callable raised StopIteration)
